@@ -22,6 +22,8 @@ def run(ctx):
 
 
 def replay(ctx, payload):
+    if translate.is_link_replay(payload) and not payload.get("failing_input"):
+        return translate.replay(ctx, payload, "C12")  # a replay file written for a broken translation tie
     from vlib import solvercases as sc
 
     sc.replay_property(ctx, "C12", payload, strict_multi=STRICT_MULTI)
